@@ -1,0 +1,53 @@
+//go:build verif
+
+package ion
+
+import (
+	"bytes"
+	"io"
+)
+
+// This file re-exports the bare text tokenizer for the /verif correspondence
+// harness. It is compiled only with -tags verif and adds no behaviour.
+
+// VerifTokenizer wraps a bare tokenizer (no textReader on top of it).
+type VerifTokenizer struct{ t *tokenizer }
+
+// VerifTokenize creates a bare tokenizer over in.
+func VerifTokenize(in io.Reader) *VerifTokenizer { return &VerifTokenizer{tokenize(in)} }
+
+// Next advances to the next token (skipping the current value if unread).
+func (v *VerifTokenizer) Next() error { return v.t.Next() }
+
+// Token returns the current token as its iota value.
+func (v *VerifTokenizer) Token() int { return int(v.t.Token()) }
+
+// TokenName returns the current token's name.
+func (v *VerifTokenizer) TokenName() string { return v.t.Token().String() }
+
+// ReadValue reads the text of the current token with tokenizer.ReadValue.
+func (v *VerifTokenizer) ReadValue() (string, error) { return v.t.ReadValue(v.t.Token()) }
+
+// ReadNumber reads the current number token with tokenizer.ReadNumber.
+func (v *VerifTokenizer) ReadNumber() (string, Type, error) { return v.t.ReadNumber() }
+
+// VerifTokenNames lists the token names in iota order.
+func VerifTokenNames() []string {
+	var out []string
+	for k := tokenError; k <= tokenCloseDoubleBrace; k++ {
+		out = append(out, k.String())
+	}
+	return out
+}
+
+// VerifCharClasses reports the character predicates of the text reader for c.
+func VerifCharClasses(c int) []bool {
+	return []bool{isWhitespace(c), isStopChar(c), isIdentifierStart(c), isIdentifierPart(c), isDigit(c),
+		isHexDigit(c), isOperatorChar(c), isProhibitedControlChar(c), isStringWhitespace(c), isNewLineChar(c), isASCII(c)}
+}
+
+// VerifReadEscapedChar runs tokenizer.readEscapedChar over in (the characters after the backslash).
+func VerifReadEscapedChar(in []byte, isClob bool) (rune, error) {
+	t := tokenize(bytes.NewReader(in))
+	return t.readEscapedChar(isClob)
+}
